@@ -20,6 +20,7 @@ struct inputs {
     uint64_t now_s, now_ms;
     uint8_t j;        /* universally quantified slot index */
     uint8_t k;        /* slot picked for "mark complete" */
+    uint8_t p, q;     /* universally quantified pair of slots */
 };
 #ifdef VERIF_CBMC
 struct inputs nondet_inputs(void);
@@ -71,7 +72,7 @@ static session_table old;
 static void setup(void) {
     load_inputs();
     V_ASSUME(in.now_s < (1ull << 62));
-    V_ASSUME(in.j < N && in.k < N);
+    V_ASSUME(in.j < N && in.k < N && in.p < N && in.q < N);
     g_plat.now_s = in.now_s; g_plat.now_ms = in.now_ms;
     T = session_table_create();
     V_ASSUME(T != 0);
@@ -87,8 +88,17 @@ static int find_old(void) {
     return -1;
 }
 
+/* R on the post-state: counting loops plus a universally quantified pair (p,q) for key uniqueness */
 static void post_R(void) {
-    V_ASSERT(inv_R(T, in.now_s), "C16: representation invariant re-established (count = live sessions <= 16, unique keys, all_complete exact)");
+    unsigned nvalid = 0; bool allc = true;
+    for (int i = 0; i < N; i++) {
+        if (T->entries[i].valid) { nvalid++; if (!T->entries[i].complete) allc = false; }
+    }
+    V_ASSERT(T->count == nvalid, "C16: count equals the number of live sessions");
+    V_ASSERT(T->all_complete == allc, "C16: all-complete reports exactly what the live sessions imply");
+    const session_entry *ep = &T->entries[in.p], *eq = &T->entries[in.q];
+    V_ASSERT(!(in.p != in.q && ep->valid && eq->valid && key_eq(ep, eq->mapper_mac, eq->generation)), "C16: at most one live session per (mapper address, generation)");
+    V_ASSERT(!ep->valid || ep->last_activity_ts <= in.now_s, "C16: activity stamps never ahead of the clock");
     V_ASSERT(T->count <= N, "C16: at most 16 sessions");
     V_ASSERT(session_table_is_empty(T) == (T->count == 0), "C16: empty reports count == 0");
     V_ASSERT(session_table_all_complete(T) == T->all_complete, "C16: all_complete accessor reports the flag");
